@@ -1,6 +1,7 @@
 package main
 
 import (
+	"math/rand"
 	"bytes"
 	"fmt"
 	"net"
@@ -72,11 +73,10 @@ func exerciseC20(r *Run, s subject, maxSeq int) int {
 	}
 	n := 0
 	t := s.v.Type()
-	// Two orders, alternating from subject to subject (one instance cannot be observed both ways):
-	// even: the encoding is taken first, then every method must leave it unchanged;
-	// odd: every method is called first, then the value is encoded, then the methods must still return what they
+	// Two orders, one per generation pass (one instance cannot be observed both ways):
+	// pass 0: the encoding is taken first, then every method must leave it unchanged;
+	// pass 1: every method is called first, then the value is encoded, then the methods must still return what they
 	// returned before anything was encoded (encoding is a read-only operation too).
-	c20Order++
 	pre := map[int][]interface{}{}
 	if c20Order%2 == 1 {
 		for _, m := range ms {
@@ -142,7 +142,19 @@ func exerciseC20(r *Run, s subject, maxSeq int) int {
 	return n
 }
 
+// Every subject is generated twice from the same random state and observed in both orders (see exerciseC20).
 func genC20(r *Run) {
+	seed := r.Rng.Int63()
+	total := 0
+	for pass := 0; pass < 2; pass++ {
+		r.Rng = rand.New(rand.NewSource(seed))
+		c20Order = pass
+		total += genC20pass(r)
+	}
+	r.Extra["oracle_evaluations"] = total
+}
+
+func genC20pass(r *Run) int {
 	evals := 0
 	maxSeq := r.N(3, 6)
 	// ---- DHCPv4 packets: generated and decoded
@@ -336,7 +348,7 @@ func genC20(r *Run) {
 		d, _ := r.genDUID()
 		evals += exerciseC20(r, subject{"DUID", reflect.ValueOf(d), d.ToBytes, nil}, maxSeq)
 	}
-	r.Extra["oracle_evaluations"] = evals
+	return evals
 }
 
 // randRoutes: classless static routes with any prefix length, destination bits set beyond the mask, 4- and 16-octet addresses
